@@ -16,6 +16,7 @@
   Second half (aliasing): *partial by nature* — see §3.
 -/
 import GraphiqModel.Proofs.Wire
+import GraphiqModel.Proofs.CommuteSem
 namespace Graphiq.C13
 open Graphiq Graphiq.Wire
 
@@ -79,6 +80,59 @@ theorem rewrite_preserves_compiled_state {σ : Type} (app : SOp → σ → σ)
   have hg' := h.good hgood
   exact denote_eq_of_flat_eq app hcomm c' c hg'.1 hgood.1 (good_arity1 hg') (good_arity1 hgood)
     (good_qNonempty hg') (good_qNonempty hgood) seq' seq hl' hl (h.flat_eq hgood) s
+
+/-! ## 2b. the commutation hypothesis discharged: the verified stabilizer semantics
+
+  `Commute.appG ne np : SOp → GSt ne np → GSt ne np` (Proofs/CommuteSem) is the semantics of one operation of the compile
+  sequence on states "stabilizer group of a valid tableau on `ne + np` qubits + the unread measurement outcomes of every
+  register" (or "cannot occur"): gates act by C07's `specGate`, measurements by C07's `specMeasure`; the outcome of a
+  measuring operation is attached to the *operation* (the k-th measuring operation on a wire takes the k-th entry of that
+  wire's outcome stream), and a recorded outcome of probability zero makes the run impossible.  In this semantics the
+  hypothesis `hcomm` of the theorems of §2 is a theorem (`stabilizer_ops_on_disjoint_registers_commute`), so the three
+  theorems hold for the stabilizer semantics with no physical assumption left. -/
+
+/-- **operations on disjoint quantum registers commute in the stabilizer semantics** — gate/gate (pointwise on rows),
+    gate/measurement, measurement/measurement (the same outcome pairs are possible in both orders and give the same group),
+    classically controlled gates and measure-and-reset; for every state -/
+theorem stabilizer_ops_on_disjoint_registers_commute (ne np : Nat) (a b : SOp) (h : ∀ r, r ∈ a.regs → r ∉ b.regs)
+    (s : Commute.GSt ne np) :
+    Commute.appG ne np a (Commute.appG ne np b s) = Commute.appG ne np b (Commute.appG ne np a s) :=
+  Commute.appG_comm ne np a b h s
+
+/-- `same_wires_same_state` for the stabilizer semantics, no hypothesis on the semantics left -/
+theorem same_wires_same_state_stab (ne np : Nat) (l1 l2 : List SOp) (hne1 : ∀ a, a ∈ l1 → a.regs ≠ [])
+    (hne2 : ∀ a, a ∈ l2 → a.regs ≠ []) (h : ∀ r, projReg SOp.regs r l1 = projReg SOp.regs r l2) (s : Commute.GSt ne np) :
+    runSeq (Commute.appG ne np) l1 s = runSeq (Commute.appG ne np) l2 s :=
+  same_wires_same_state SOp.regs (Commute.appG ne np) (Commute.appG_comm ne np) l1 l2 hne1 hne2 h s
+
+/-- **the stabilizer state a circuit compiles to does not depend on the topological order** `sequence()` returns: same
+    stabilizer group (and the same outcome assignments are possible), for every circuit, every pair of linear extensions,
+    every initial state and every assignment of outcomes to the measuring operations -/
+theorem compile_independent_of_topological_order_stab (ne np : Nat) (c : Circuit) (hgood : c.Good) (seq1 seq2 : List Nat)
+    (hl1 : c.isLinearExtension seq1 = true) (hl2 : c.isLinearExtension seq2 = true) (s : Commute.GSt ne np) :
+    runSeq (Commute.appG ne np) (c.sops seq1) s = runSeq (Commute.appG ne np) (c.sops seq2) s :=
+  compile_independent_of_topological_order (Commute.appG ne np) (Commute.appG_comm ne np) c hgood seq1 seq2 hl1 hl2 s
+
+/-- **copying, unwrapping, grouping, removing identities and attaching an empty noise map do not change the stabilizer
+    state the circuit compiles to**, whatever topological orders the two compilations use, for every assignment of
+    outcomes to the measuring operations (named by their position on the wire of the measured qubit, which the rewrites
+    preserve) -/
+theorem rewrite_preserves_compiled_state_stab (ne np : Nat) (c c' : Circuit) (hgood : c.Good) (h : Rewrites c c')
+    (seq seq' : List Nat) (hl : c.isLinearExtension seq = true) (hl' : c'.isLinearExtension seq' = true)
+    (s : Commute.GSt ne np) :
+    runSeq (Commute.appG ne np) (c'.sops seq') s = runSeq (Commute.appG ne np) (c.sops seq) s :=
+  rewrite_preserves_compiled_state (Commute.appG ne np) (Commute.appG_comm ne np) c c' hgood h seq seq' hl hl' s
+
+/-- read on the compile loop proper: started in `|0…0⟩` with the circuit's own register counts, the rewritten circuit
+    ends in the same stabilizer group as the original (or both runs are impossible for that outcome assignment) -/
+theorem rewrite_preserves_compiled_group (c c' : Circuit) (hgood : c.Good) (h : Rewrites c c') (seq seq' : List Nat)
+    (hl : c.isLinearExtension seq = true) (hl' : c'.isLinearExtension seq' = true) (sc : Commute.Script) :
+    runSeq (Commute.appRaw c.ne c.np) (c'.sops seq') (some (TabSpec.gstate (Tab.ket0 (c.ne + c.np)), sc)) =
+      runSeq (Commute.appRaw c.ne c.np) (c.sops seq) (some (TabSpec.gstate (Tab.ket0 (c.ne + c.np)), sc)) := by
+  have := rewrite_preserves_compiled_state_stab c.ne c.np c c' hgood h seq seq' hl hl' (Commute.GSt.init c.ne c.np sc)
+  have h2 := congrArg Subtype.val this
+  rw [Commute.runSeq_appG_val, Commute.runSeq_appG_val] at h2
+  exact h2
 
 /-! ## 3. library calls do not mutate their inputs -/
 
